@@ -380,8 +380,14 @@ func (x *miscStopExt) AtQuiescence(w *run) {
 				e.Probe("c14_accepted_stream_written_after_final_goaway") // cannot happen: ids grow
 			}
 			if !served && !(ws.S.Rst && ws.S.RstC == http2.ErrCodeRefusedStream) && !ws.C.Rst {
-				lostConn[ws.RPC] = ws.Conn + 1
-				e.Violate("accepted_stream_not_served"+suffix(ws.Conn), "conn %d stream %d (rpc %d): id <= last-stream-id %d of the server's final GOAWAY, but the server never answered it with a handler's response", ws.Conn, ws.SID, ws.RPC, g.LastID)
+				sfx := ""
+				if len(byRPC[ws.RPC]) > 0 {
+					// the recorded defect loses the response of a handler
+					// that ran; a stream without any handler is something else
+					sfx = suffix(ws.Conn)
+					lostConn[ws.RPC] = ws.Conn + 1
+				}
+				e.Violate("accepted_stream_not_served"+sfx, "conn %d stream %d (rpc %d): id <= last-stream-id %d of the server's final GOAWAY, but the server never answered it with a handler's response", ws.Conn, ws.SID, ws.RPC, g.LastID)
 			}
 		} else {
 			e.Probe("c14_stream_above_final_goaway")
@@ -601,6 +607,43 @@ func miscGenC14we(seed uint64, tier string) *Scenario {
 			if r.Chance(1, 2) {
 				s.RPCs[i].StartNs = f.AtNs + int64(r.Intn(int(f.DurNs)+1000000000))
 			}
+		}
+	}
+	if len(s.Faults) > 0 && !maxAge && r.Chance(1, 2) {
+		// Aim requests at the instant the server gives up waiting for the
+		// drain PING (grpc-go: 5 s after the heads-up GOAWAY): the client has
+		// not heard of the drain (server->client path stalled since before
+		// it), so its HEADERS are being processed while the final GOAWAY is
+		// written. The constant only steers generation; no oracle uses it.
+		f := &s.Faults[0]
+		f.Dir = "s2c"
+		f.AtNs = max(0, t-int64(r.Intn(int(spread)+1)))
+		f.DurNs = int64(r.Range(5500, 9000)) * 1000000
+		for i := range s.RPCs {
+			if r.Chance(1, 2) {
+				s.RPCs[i].StartNs = max(0, t+5000000000-int64(r.Intn(int(s.Net.LatencyNs)+1))+int64(r.Intn(4000))-2000)
+			}
+		}
+	}
+	if len(s.Faults) > 0 && !maxAge && s.Faults[0].Dir != "s2c" && r.Chance(1, 2) {
+		// Both directions stalled across the server's drain wait, with a small
+		// send buffer and an early bulky response so that the server's writer
+		// blocks: the final-GOAWAY work item waits in its queue, and when the
+		// stall ends the writer resumes at the very instant the reader sees
+		// the burst of requests the client sent meanwhile.
+		f := &s.Faults[0]
+		f.Dir = "both"
+		f.AtNs = max(0, t-int64(r.Intn(int(spread)+1)))
+		f.DurNs = int64(r.Range(5200, 8000)) * 1000000
+		s.Net.InflightCap = core.Pick(r, 1, 512, 4096)
+		s.Sched.YieldThr = core.Pick(r, uint32(2000), 6500, 20000)
+		early := &s.RPCs[0]
+		early.StartNs = max(0, f.AtNs-int64(r.Intn(200000))-int64(s.Net.LatencyNs))
+		early.Client = []Op{{Op: "close_send"}, {Op: "recv_all"}}
+		early.Server = [][]Op{{{Op: "sleep", Ns: int64(r.Range(100000, 3000000))}, {Op: "send", N: r.Range(5000, 12000)}, {Op: "send", N: r.Range(5000, 12000)}, {Op: "return", Msg: "h-" + fmt.Sprint(early.ID)}}}
+		for i := 1; i < len(s.RPCs); i++ {
+			s.RPCs[i].StartNs = f.AtNs + int64(r.Intn(int(f.DurNs)))
+			s.RPCs[i].WaitReady = false
 		}
 	}
 	s.Ext = map[string]json.RawMessage{"stop": ExtJSON(&c)}
